@@ -543,6 +543,11 @@ func (b *Builder) callMulti(call *ast.CallExpr, nres int) []*Term {
 		args := b.args(call, sig)
 		isIface := sig.Recv() != nil && types.IsInterface(sig.Recv().Type())
 		name := b.P.abbrev(fn.FullName())
+		if _, isTable := b.P.pureTable(fn); isTable && len(args) == 1 {
+			// a finite table written as a function: the same terms as a lookup in the map form
+			it := mk("index", "", &Term{Op: "global", Name: name}, args[0])
+			return []*Term{it, mk("ok", "", it)}
+		}
 		if !isIface {
 			if fs := b.P.Funcs[fn.Origin()]; fs != nil && b.inst.Depth < b.maxDepth && !b.onStack(fs.Obj) && !b.noInline[name] {
 				if sig.Variadic() && !call.Ellipsis.IsValid() {
